@@ -3,6 +3,7 @@ import ast
 import itertools
 
 from ..alg import Rat
+from ..report import weighed
 from ..loader import shape_error, anchor_error
 from ..sx import Walker, State
 from .. import orders
@@ -430,7 +431,11 @@ def rule_C(ctx):
                           witness={'direction argument': a}, node=c, key='stops:' + fi.name)
     if n == 0:
         raise shape_error('no stop-detection caller of optimalPartition found')
-    # optimalSegmentation forwards mode and builds the matrix from the cost function
+
+
+def rule_K(ctx):
+    """C12.K optimalSegmentation read symbolically: forwards mode and builds the matrix from the cost function (a shape rule: weighed
+    against C12.S, which interprets the delegation chain with a recording stand-in for the dynamic programme)"""
     f = ctx.prog.func(SEG + '.optimalSegmentation')
     w = Walker(f, loop_mode='once')
     outs = [o for o in w.run(body_nodocstring(f), State({f.params[4]: Rat.const(0)})) if o.kind == 'return']
@@ -440,7 +445,7 @@ def rule_C(ctx):
     for o in outs[:1]:
         pc = [e for e in o.state.events if e.kind == 'call' and e.name == 'optimalPartition']
         okf = len(pc) == 1 and len(pc[0].args) >= 2 and isinstance(pc[0].args[1], Rat) and pc[0].args[1].single_atom() == mode
-        ctx.check(okf, 'C12.C', f, 'optimalSegmentation forwards its mode argument to optimalPartition',
+        ctx.check(okf, 'C12.K', f, 'optimalSegmentation forwards its mode argument to optimalPartition',
                   witness={'call': unparse(pc[0].node) if pc else None}, node=f.node, key='fwd-mode')
         # the matrix handed over: the filled triangle mirrored, every value kept as computed (whatever its sign)
         if pc and pc[0].args:
@@ -457,11 +462,11 @@ def rule_C(ctx):
                     sym = True
             clip = any(mt.startswith(x) for x in ('np.maximum(', 'np.minimum(', 'np.abs(', 'np.clip(', 'np.fmax(', 'np.fmin(', 'abs('))
             if clip:
-                ctx.violation('C12.C', f, 'the cost matrix handed to the dynamic programme holds the costs as the cost function returned them',
+                ctx.violation('C12.K', f, 'the cost matrix handed to the dynamic programme holds the costs as the cost function returned them',
                               {'matrix passed': mt, 'why': 'the unfilled triangle is 0: an element-wise max/min/abs with the transpose replaces every negative '
                                '(resp. positive) cost by 0, so a criterion with negative values is optimised on the wrong table'}, node=pc[0].node, key='sym-clip')
             else:
-                ctx.recognise(sym, 'C12.C', f, 'the cost matrix is mirrored by adding its transpose (the other triangle is zero): values unchanged', node=pc[0].node)
+                ctx.recognise(sym, 'C12.K', f, 'the cost matrix is mirrored by adding its transpose (the other triangle is zero): values unchanged', node=pc[0].node)
         cc = [e for e in o.state.events if e.kind == 'call' and e.name == cost]
         if not cc:
             raise shape_error('optimalSegmentation never calls the cost function', f.loc())
@@ -479,13 +484,13 @@ def rule_C(ctx):
             else:
                 good = any(c.op == '==' for c in isnone) and not truthy
                 desc = 'the 3-argument form of the cost function is used only when the global parameter is None'
-            ctx.check(good, 'C12.C', f, desc,
+            ctx.check(good, 'C12.K', f, desc,
                       witness={'guards of this call': [repr(c) for c in conds],
                                'why': 'a truthiness test drops a legitimate parameter equal to 0'},
                       node=e.node, key='gp:%s' % passes_gp)
             # segment (i, j-1) of the track
             ok3 = len(e.args) >= 3 and isinstance(e.args[0], Rat) and e.args[0].single_atom() == tr
-            ctx.check(ok3, 'C12.C', f, 'the cost function receives the track first', witness={'args': [repr(a) for a in e.args]},
+            ctx.check(ok3, 'C12.K', f, 'the cost function receives the track first', witness={'args': [repr(a) for a in e.args]},
                       node=e.node, key='costargs:%s' % passes_gp)
     # optimalSimplification / simplify (known API defects are reported through known_findings.json)
     g = ctx.prog.func(SIM + '.optimalSimplification')
@@ -495,7 +500,7 @@ def rule_C(ctx):
         raise shape_error('optimalSimplification does not call optimalSegmentation once', g.loc())
     c = calls[0]
     fw = (len(c.args) >= 4 and unparse(c.args[3]) == gm) or any(k.arg == 'mode' and unparse(k.value) == gm for k in c.keywords)
-    ctx.check(fw, 'C12.C', g, 'optimalSimplification forwards its mode (direction) to optimalSegmentation',
+    ctx.check(fw, 'C12.K', g, 'optimalSimplification forwards its mode (direction) to optimalSegmentation',
               witness={'call': unparse(c), 'parameter never forwarded': gm}, node=c, key='simp-mode')
     s = ctx.prog.func(SIM + '.simplify')
     for c in ast.walk(s.node):
@@ -504,7 +509,7 @@ def rule_C(ctx):
             okn = len(c.args) + len(c.keywords) <= nmax
             # the 4th positional actual must be a direction, never `verbose`
             ok4 = len(c.args) < 4 or unparse(c.args[3]) != s.params[3]
-            ctx.check(okn and ok4, 'C12.C', s,
+            ctx.check(okn and ok4, 'C12.K', s,
                       'simplify binds its arguments to the right formals of optimalSimplification(track, cost, eps, mode)',
                       witness={'call': unparse(c), 'formals': g.params,
                                'why': 'verbose lands in the mode slot' if not ok4 else 'too many arguments (TypeError)'},
@@ -516,5 +521,6 @@ RULES = [
     ('C12.B', rule_B, 'quick'),
     ('C12.S', rule_S, 'quick'),
     ('C12.C', rule_C, 'quick'),
+    ('C12.K', weighed('C12.K', rule_K, ('C12.S',)), 'quick'),
 ]
 MIN_OBLIGATIONS = 10
